@@ -8,7 +8,6 @@ package bucketteer
 import (
 	"encoding/binary"
 	"io"
-	"math"
 	"os"
 
 	"github.com/rpcpool/yellowstone-faithful/indexmeta"
@@ -269,7 +268,6 @@ func VerifC05File() {
 		ok, err := r.Has(s)
 		verifAssert(err == nil && !ok, "C05.file: empty bucket reports a signature / fails")
 	}
-	_ = math.MaxUint64
 	verifReach("end")
 }
 
